@@ -3,6 +3,7 @@ from ..harness_api import Harness
 from ..compat import pre, cover, known, StepBudget, NoTracing
 from ..stubs import SizedList
 from ..skel import stmts as S
+from ..skel import exc as X
 
 ASSUMPTIONS = [
     "the documented accounting: 100 bytes per operand-stack item + 200 bytes per call frame; heap data is not "
@@ -112,6 +113,45 @@ def make_runaway(name):
     return h
 
 
+# ---- runaway recursion at realistic limits (through the public API, concrete M) -------------------------
+LARGE_M = [20000, 100000, 500000, 1024 * 1024, 5000000]
+
+
+def make_runaway_large(name):
+    src = "var L = []; try { %s } catch (e) { L.push('catch'); } finally { L.push('finally'); } L.length" % RUNAWAY[name]
+
+    def h(k):
+        pre(0 <= k < len(LARGE_M))
+        M = None
+        for i in range(len(LARGE_M)):
+            if k == i:
+                M = LARGE_M[i]
+        with NoTracing():
+            from microjs import Context
+            from microjs.errors import MemoryLimitError, JSError
+            ctx = Context(memory_limit=M, time_limit=120)
+            try:
+                r = ctx.eval(src)
+                outcome = "returned %r" % (r,)
+            except MemoryLimitError:
+                outcome = "MemoryLimitError"
+            except JSError as e:
+                outcome = "%s(%s)" % (type(e).__name__, str(e)[:80])
+            except RecursionError:
+                outcome = "host RecursionError"
+            cover("stopped", outcome == "MemoryLimitError")
+            if outcome != "MemoryLimitError":
+                return "runaway recursion (%s) under memory_limit=%d ended with %s" % (name, M, outcome)
+            try:
+                if ctx.eval("1 + 1") != 2:
+                    return "context unusable after the stop"
+            except Exception as e:  # noqa: BLE001
+                return "context unusable after the stop: %r" % (e,)
+        return True
+    h.__annotations__ = {"k": int, "return": bool}
+    return h
+
+
 # ---- no residue: every loop-head visit sees the same depths ----------------------------------------
 def make_residue(src, closure=False):
     def h(N, C0, C1, C2):
@@ -183,7 +223,13 @@ def harnesses():
                           per_path=60, budget=300, budget_thorough=600, require=("stopped",), group="runaway",
                           functions=("microjs.vm.VM._execute", "microjs.vm.VM._call_callback",
                                      "microjs.vm.VM._check_limits", "microjs.vm.VM._invoke_js_function")))
-    progs = S.programs() + residue_extra()
+    for name in RUNAWAY:
+        hs.append(Harness(id="C02.runaway-large." + name, fn=make_runaway_large(name),
+                          bounds=["M: solver-chosen index into %r (the README documents 1024*1024)" % (LARGE_M,),
+                                  "recursion shape: " + name, "run through the public Context.eval"],
+                          per_path=300, budget=900, require=("stopped",), group="runaway at realistic M",
+                          functions=("microjs.context.Context.eval",)))
+    progs = S.programs() + residue_extra() + [("exc." + i, src) for i, src in X.programs()]
     for pid, src in progs:
         hs.append(Harness(id="C02.residue." + pid, fn=make_residue(src),
                           bounds=["N in [0,3], C0..C2 in [-1,3] (symbolic)", "program: " + pid],
